@@ -29,7 +29,10 @@ RULE_ADDED = (
               "n at the command's first exchange) and outages of up to 20 failed reconnections;"
               " follow-ups run with the follow-up shape's own device settings. "
               ' '
-              'Round 9: link failures right after a request that timed out. ')
+              'Round 9: link failures right after a request that timed out. '
+              ' '
+              'Round 10: link failures by power cycle (from the faulted exchange on the device '
+              'is locked in the bootloader). ')
 RULE = RULE + " " + RULE_ADDED.strip()
 ASSUMPTIONS = [
     "fault kinds are those of the HID transport (write() < 0, read error, time-out) as the "
@@ -85,6 +88,9 @@ def run_shard(spec, acc):
                             variants = ["plain"]
                             if j == 0 and (thorough or rng.random() < 0.3):
                                 variants.append("reboot")
+                            if j == 0 and kind != "timeout" and \
+                                    (thorough or rng.random() < 0.3):
+                                variants.append("powercycle")
                             if (thorough and j < 2) or rng.random() < 0.2:
                                 variants.append("vbetween")
                             if j == 0 and (thorough or rng.random() < 0.15):
@@ -210,7 +216,18 @@ def run_case(acc, c, roles=None):
         if shape.post:
             shape.post(dev)
         s.bus.arm({k: fault})
+        if c["variant"] == "powercycle":
+            # the link fails because the device loses power: from the faulted exchange on
+            # it is a device that has just booted (locked, in the bootloader) - whatever
+            # the faulted request itself still does on the link finds it that way
+            def cycle(bus, apdu, _k=k):
+                if bus.n_apdu - 1 == _k:
+                    dev.mode = MODE_BOOTLOADER
+                    dev.unlocked = False
+            s.bus.exchange_hook = cycle
+            acc.count("link_failures_by_power_cycle")
         reply, exc, out = s.request(shape.request)
+        s.bus.exchange_hook = None
         is_exit = (role == "exit")
         if exc is not None:
             return bad("exception-escaped:%s:%s:%s:%s" % (shape.command, role, kind,
@@ -250,7 +267,7 @@ def run_case(acc, c, roles=None):
             dev.cfg[k_] = fu.devcfg.get(k_)
         if fu.post and fu.name != "uiHeartbeat.hbmode":
             fu.post(dev)
-        if c["variant"] == "reboot" or c["variant"].startswith("rebootlate"):
+        if c["variant"] in ("reboot", "powercycle") or c["variant"].startswith("rebootlate"):
             dev.mode = MODE_BOOTLOADER
             dev.unlocked = False
         old_handle = s.bus.handle_seq
@@ -407,7 +424,7 @@ def run_case(acc, c, roles=None):
                 return bad("no-full-bring-up-after-double-fault:%s" % fu.command,
                            roles=roles3[:8])
             return
-        if c["variant"] == "reboot":
+        if c["variant"] in ("reboot", "powercycle"):
             # bring-up goes through the bootloader: unlock, exit, reconnect, then checks
             if 0xFE not in [e["apdu"][1] for e in s.bus.apdus(mark) if e["apdu"]]:
                 return bad("rebooted-device-not-unlocked:%s" % fu.command, roles=got_roles[:12])
